@@ -128,7 +128,7 @@ def run(ctx):
         terms += t
         jsons += j
         ctx.log("harness %s: %d cases" % (tag, len(t)))
-    bad, exact, err = pl.judge(ctx, terms, count="exact_and_hyps")
+    bad, exact, err = pl.judge(ctx, terms, fn="proto_judge_sig", count="exact_and_hyps")
     if err:
         ctx.report({"unchecked": "in-kernel evaluation of the correspondence", "detail": err},
                    {"kind": "coq_eval"}, failing_input=False)
@@ -145,14 +145,11 @@ def run(ctx):
                     "path + relative directory for " + ", ".join(j["oracle_mismatch"]),
                     "oracle": j["oracle"], "go_list": j["oracle_golist"]},
                    {"kind": "oracle"}, failing_input=True)
-    for i, code in bad:
+    for i, sig in bad:
         j = jsons[i]
+        code, diff = pl.decode_sig(sig)
         if ctx.nreplay < 3:
-            j = pl.minimise(ctx, tools, j, code)
-            t2, j2, err2 = pl.run_specs(ctx, tools, "final", [j["spec"]])
-            diff = pl.spec_diff(ctx, t2[0]) if (not err2 and t2) else ["?"]
-        else:
-            diff = pl.spec_diff(ctx, terms[i])
+            j = pl.minimise(ctx, tools, j, sig)
         rep = {"case": pl.view(j),
                "verdict": {1: "recorded protoc invocation violates the specification",
                            2: "recorded protoc invocation satisfies the specification but differs from the Coq model"}[code],
@@ -166,7 +163,7 @@ def run(ctx):
     if not err and t:
         b, _, err = pl.judge(ctx, t, tag="ood")
         if not err:
-            codes = dict(b)
+            codes = {k: c % 4 for k, c in b}
             for k, j in enumerate(jo):
                 d = ood.setdefault(j["kind"], {"cases": 0, "agree": 0, "spec_violated": 0, "model_differs": 0})
                 d["cases"] += 1
@@ -222,14 +219,15 @@ def replay(ctx, path):
     if err:
         print(err)
         return 2
-    bad, _, err = pl.judge(ctx, t, tag="replay")
+    bad, _, err = pl.judge(ctx, t, fn="proto_judge_sig", tag="replay")
     if err:
         print(err)
         return 2
     print(json.dumps(pl.view(j[0]), indent=1))
     if bad:
-        print("differs in:", pl.spec_diff(ctx, t[0]))
-        print("REPLAY: still failing (code %d)" % bad[0][1])
+        code, diff = pl.decode_sig(bad[0][1])
+        print("differs in:", diff)
+        print("REPLAY: still failing (code %d)" % code)
         return 1
     print("REPLAY: passes on the current tree")
     return 0
